@@ -38,6 +38,17 @@ CHECKS = {
              'and refuse 7 writing calls.',
         note='pack crash states belong to C08; bit damage inside an index is outside the guarantee',
         design='6/C09'),
+    'C02': dict(
+        technique='TLA+ spec ZMvcc (MVCC adapter, connection cache, pool, finish/invalidation at lock granularity) '
+                  'model-checked by TLC; traces of real multi-threaded runs under a deterministic scheduler validated by TLC',
+        text='TLC checks CacheCoherent, Fresh, NotFromTheFuture, VotedOnCurrent, LockDiscipline over all interleavings of 2 '
+             'connections x 2 objects x 3-4 commits with close/reopen, and rejects the known-bad design (mutant constant); '
+             'conformance (code -> spec): seeded multi-connection programs run on the real DB/Connection/MVCCAdapter over '
+             'FileStorage and MappingStorage, one real thread per connection under a cooperative scheduler switching at lock '
+             'operations; every recorded step must be a ZMvcc step with the logged snapshot, cache projection, serials and '
+             'tids, and all invariants are evaluated in every state of every trace.',
+        note='lock-operation granularity; seeded random schedules (quick 600, thorough 20000); packer threads in C08',
+        design='6/C02'),
     'C03': dict(
         technique='TLA+ spec ZStorage (NoLostUpdate, StoredIsMerge) model-checked by TLC; conflict-heavy TLC behaviours '
                   'replayed on FileStorage and MappingStorage, outcome of every store/checkCurrent compared',
